@@ -348,7 +348,11 @@ func runSequence(r *mon.Run, idx int, st *seqStats) {
 			classes["alloc:"+cls] = true
 			switch {
 			case ok && !wantOK:
-				fail("alloc:succeeds-without-gap", fmt.Sprintf("allocate(%d) returned offset %d although the reference finds no gap (max gap %d, %d entries)", n, off, model.MaxGap(), len(model.Entries)), nil)
+				sig := "alloc:succeeds-without-gap"
+				if len(model.Entries) >= shmref.MaxAllocs {
+					sig = "alloc:succeeds-with-full-table"
+				}
+				fail(sig, fmt.Sprintf("allocate(%d) returned offset %d although the reference finds no gap (max gap %d, %d entries)", n, off, model.MaxGap(), len(model.Entries)), nil)
 				return
 			case !ok && wantOK:
 				why := "spurious-failure"
@@ -831,7 +835,7 @@ func main() {
 		defer pprof.StopCPUProfile()
 	}
 	defer shmref.CleanupPrefix(namePrefix)
-	r.SetRule("sequential: sequence i derives (segment size class, creator, 50 ops [4300 for fill-to-4094 sequences]) from (VERIF_SEED, i); ops = allocate(size classes relative to the current gaps) / free(valid, interior, end, random, edge offsets) / reset / AllocateAndWrite(generated batch) / attach-detach a second library handle / read-table; after EVERY op the header is parsed from a second read-only mapping and compared with the reference table. concurrent: history j = 2..8 goroutines x <= 6 ops, porcupine against the same model. distinct = distinct (size class, creator, op-kind/outcome sequence) resp. distinct call/return orders")
+	r.SetRule("sequential: sequence i derives (segment size class, creator, 50 ops; every 100th sequence starts from a ~4050-entry table pre-written by the harness through the second mapping and runs 300 ops incl. fill-to-4094) from (VERIF_SEED, i); ops = allocate(size classes relative to the current gaps) / free(valid, interior, end, random, edge offsets) / reset / AllocateAndWrite(generated batch) / attach-detach a second library handle / read-table; after EVERY op the header is parsed from a second read-only mapping and compared with the reference table. concurrent: history j = 2..8 goroutines x <= 6 ops, porcupine against the same model. distinct = distinct (size class, creator, op-kind/outcome sequence) resp. distinct call/return orders")
 	r.Assume("documented header layout (shm.go wire-format block + initializeHeader): magic VGIS, version 1, data_size u64, count u32, 4 pad bytes, 16-byte (offset,length) entries; no alignment/rounding of allocation sizes is documented, so the model allocates exact byte counts")
 	r.Assume("a read-only MAP_SHARED mapping of /dev/shm/<name> made by the harness is what another attaching process would read (tmpfs page-cache coherence)")
 	r.Assume("AllocateAndWrite's documented pre-check ('buffer bytes plus a small overhead') is modelled generously as all buffers of all nested/dictionary arrays + 4096: a refusal is a violation only when a gap at least that large exists")
@@ -842,7 +846,7 @@ func main() {
 		"table-full", "alloc-refused-table-full", "table-prefilled-through-second-mapping", "data=1", "seg=64M",
 		"concurrent:overlapping-operations", "concurrent:with-write-batch")
 
-	nSeq := r.N(2000, 200000)
+	nSeq := r.N(2000, 60000)
 	nHist := r.N(600, 20000)
 	workers := 8
 	if r.Thorough() {
